@@ -467,7 +467,9 @@ def b_prim(rnd):
                        {"type": "array", "items": {"type": "string"}}, {"type": "object", "additionalProperties": {"type": "integer"}},
                        # type SETS: several scalar types, with and without null
                        {"type": ["string", "integer", "null"]}, {"type": ["boolean", "number", "null"]}, {"type": ["string", "integer"]},
-                       {"type": "object", "additionalProperties": {"type": ["boolean", "number", "null"]}}, {"type": "array", "items": {"type": ["string", "integer", "null"]}}])
+                       {"type": "object", "additionalProperties": {"type": ["boolean", "number", "null"]}}, {"type": "array", "items": {"type": ["string", "integer", "null"]}},
+                       # open string with known values whose Rust identifiers collide
+                       {"anyOf": [{"type": "string"}, {"type": "string", "enum": ["gpt-4", "gpt_4", "GPT-4", "other"]}]}])
 
 
 def b_object(rnd, names, closed_p=0.2, depth=0):
@@ -485,8 +487,11 @@ def b_object(rnd, names, closed_p=0.2, depth=0):
     o = {"type": "object", "properties": props}
     if req:
         o["required"] = req
-    if rnd.random() < closed_p:
+    r = rnd.random()
+    if r < closed_p:
         o["additionalProperties"] = False
+    elif r < closed_p + 0.25:
+        o["additionalProperties"] = True          # declared members plus arbitrary extra ones
     return o
 
 
@@ -579,10 +584,16 @@ def b_instance(rnd, s, comps, depth=0):
         for nm, ps in props.items():
             if nm in req or (rnd.random() < 0.6 and depth < 4):
                 o[nm] = b_instance(rnd, ps, comps, depth + 1)
+        if addl is True and rnd.random() < 0.7:
+            o["zx_trace"] = rnd.choice(["abc", ""])
+            o["zx_attempt"] = rnd.choice([3, 0])
         return o
     t = s.get("type")
     if "enum" in s:
         return rnd.choice(s["enum"])
+    if "anyOf" in s and all(v.get("type") == "string" for v in s["anyOf"]):
+        vals = [x for v in s["anyOf"] for x in v.get("enum", [])]
+        return rnd.choice(vals + ["free text"])
     if isinstance(t, list):
         t = rnd.choice(t)
         if t == "null":
@@ -647,7 +658,11 @@ def b_project(s, comps, x):
         return x
     if isinstance(x, dict) and ("$ref" in s or "allOf" in s or "properties" in s):
         props, req, addl = b_resolve(s, comps)
-        return {k: b_project(props[k], comps, v) for k, v in x.items() if k in props and v is not None}
+        out = {k: b_project(props[k], comps, v) for k, v in x.items() if k in props and v is not None}
+        if addl is True or isinstance(addl, dict):
+            # additionalProperties: true (or a schema) keeps the undeclared members
+            out.update({k: (b_project(addl, comps, v) if isinstance(addl, dict) else v) for k, v in x.items() if k not in props and v is not None})
+        return out
     if isinstance(x, dict):
         ap = s.get("additionalProperties")
         return {k: (b_project(ap, comps, v) if isinstance(ap, dict) else v) for k, v in x.items()}
